@@ -205,6 +205,20 @@ theorem framePrefix_eq_parts (p : List UInt8) :
         [0x1b, 0x1b, 0x1b, 0x1b, 0x1a, UInt8.ofNat (padLen (Spec.START ++ stuff p).length)] := by
   simp [framePrefix, ESC]
 
+/-- start (8) + stuffed payload + padding + end escape, `1a`, pad count (6) + CRC (2) -/
+theorem length_frame (p : List UInt8) :
+    (frame p).length = (stuff p).length + padLen (Spec.START ++ stuff p).length + 16 := by
+  rw [frame_eq_parts]
+  simp [Spec.length_START, length_le16]
+  omega
+
+/-- every frame is a whole number of 32-bit words -/
+theorem length_frame_mod4 (p : List UInt8) : (frame p).length % 4 = 0 := by
+  have h := Spec.padLen_spec (Spec.START ++ stuff p).length
+  rw [length_frame]
+  simp only [List.length_append, Spec.length_START] at h ⊢
+  omega
+
 theorem take_zeros {k : Nat} (h : k < 4) :
     ([0, 0, 0] : List UInt8).take k = List.replicate k 0 := by
   have : k = 0 ∨ k = 1 ∨ k = 2 ∨ k = 3 := by omega
@@ -264,6 +278,14 @@ theorem finish_new_extend (cap : Option Nat) (s : List UInt8) :
 
 /-! ### the iterator encoder -/
 
+/-- dropping the `Some` wrapper of the iterator outputs -/
+theorem filterMap_map_byte (l : List UInt8) (f : EOut → Option UInt8)
+    (hf : ∀ b, f (.byte b) = some b) : (l.map EOut.byte).filterMap f = l := by
+  induction l with
+  | nil => rfl
+  | cons x xs ih => simp [hf, ih]
+
+
 namespace Enc
 
 theorem run_zero (e : Enc) : e.run 0 = (e, []) := rfl
@@ -310,7 +332,10 @@ theorem LookLike.lt {st : EState} {n : Nat} (h : LookLike st n) : n < 4 := by
 
 theorem next_of_lookLike {e : Enc} {n : Nat} (h : LookLike e.st n) : e.next = nextLook e n := by
   unfold next
-  rcases h with ⟨h, hn⟩ | ⟨rfl, h | h⟩ <;> simp [h, hn]
+  rcases h with ⟨h, hn⟩ | ⟨rfl, h | h⟩
+  · simp [h, hn]
+  · simp [h]
+  · simp [h]
 
 theorem nextLook_cons {e : Enc} {b : UInt8} {bs : List UInt8} (h : e.rest = b :: bs) (n : Nat) :
     nextLook e n =
@@ -353,11 +378,12 @@ theorem run_payload (q : List UInt8) :
       by_cases h3 : n = 3
       · subst h3
         -- the fourth 0x1b: one byte, then the escape, then the rest
-        have hesc := run_escape (e := { e with rest := bs, padding := e.padding - 1,
-          crc := crcByte e.crc 0x1b, st := .look (3 + 1) }) rfl
+        have hesc := run_escape (e := { e with
+          rest := bs, padding := e.padding - 1, crc := crcByte e.crc 0x1b, st := .look (3 + 1) }) rfl
         obtain ⟨e', hrun, hl', hr', hc', hp'⟩ :=
-          ih { e with rest := bs, padding := e.padding - 1,
-                      crc := crcUpdate (crcByte e.crc 0x1b) ESC, st := .esc 4 } 0
+          ih { e with
+               rest := bs, padding := e.padding - 1
+               crc := crcUpdate (crcByte e.crc 0x1b) ESC, st := .esc 4 } 0
             (Or.inr ⟨rfl, Or.inr rfl⟩) rfl
         refine ⟨e', ?_, ?_, hr', ?_, ?_⟩
         · have := run_succ_of hnext (run_add_of hesc hrun)
@@ -367,8 +393,9 @@ theorem run_payload (q : List UInt8) :
         · rw [hc', Spec.stuffFrom_cons_1b_three, crcUpdate_cons, crcUpdate_append]
         · rw [hp']; exact hpad _
       · obtain ⟨e', hrun, hl', hr', hc', hp'⟩ :=
-          ih { e with rest := bs, padding := e.padding - 1,
-                      crc := crcByte e.crc 0x1b, st := .look (n + 1) } (n + 1)
+          ih { e with
+               rest := bs, padding := e.padding - 1
+               crc := crcByte e.crc 0x1b, st := .look (n + 1) } (n + 1)
             (Or.inl ⟨rfl, by omega⟩) rfl
         refine ⟨e', ?_, ?_, hr', ?_, ?_⟩
         · have := run_succ_of hnext hrun
@@ -379,8 +406,9 @@ theorem run_payload (q : List UInt8) :
         · rw [hp']; exact hpad _
     · simp only [if_neg hb, Nat.mul_zero] at hnext
       obtain ⟨e', hrun, hl', hr', hc', hp'⟩ :=
-        ih { e with rest := bs, padding := e.padding - 1,
-                    crc := crcByte e.crc b, st := .look 0 } 0
+        ih { e with
+             rest := bs, padding := e.padding - 1
+             crc := crcByte e.crc b, st := .look 0 } 0
           (Or.inl ⟨rfl, by omega⟩) rfl
       refine ⟨e', ?_, ?_, hr', ?_, ?_⟩
       · have := run_succ_of hnext hrun
@@ -474,15 +502,25 @@ theorem run_trailer {e : Enc} {n : Nat} (hl : LookLike e.st n) (hr : e.rest = []
       [0x1b, 0x1b, 0x1b, 0x1b, 0x1a, e.padGet],
     st := .fin (-(e.padGet.toNat : Int)) }
   have hle : (-(e.padGet.toNat : Int)) ≤ 8 := by omega
-  have hnext : e.next = e0.next := by
-    rw [next_of_lookLike hl, next_fin (e := e0) rfl, nextFin_with_st _ _ hle]
+  have hA : e.next = nextFin { e with
+      crc := crcUpdate (crcUpdate e.crc (List.replicate e.padGet.toNat 0))
+        [0x1b, 0x1b, 0x1b, 0x1b, 0x1a, e.padGet] } (-(e.padGet.toNat : Int)) := by
+    rw [next_of_lookLike hl]
     simp [nextLook, hr]
+  have hB : e0.next = nextFin { e with
+      crc := crcUpdate (crcUpdate e.crc (List.replicate e.padGet.toNat 0))
+        [0x1b, 0x1b, 0x1b, 0x1b, 0x1a, e.padGet] } (-(e.padGet.toNat : Int)) := by
+    rw [next_fin (e := e0) rfl]
+    exact nextFin_with_st { e with
+      crc := crcUpdate (crcUpdate e.crc (List.replicate e.padGet.toNat 0))
+        [0x1b, 0x1b, 0x1b, 0x1b, 0x1a, e.padGet] } (.fin (-(e.padGet.toNat : Int))) hle
+  have hnext : e.next = e0.next := hA.trans hB.symm
   have h1 := run_zeros e.padGet.toNat e0 rfl
   have h2 := run_tail (e := { e0 with st := .fin 0 }) rfl
   have h := run_add_of h1 h2
   have hrun : e.run (e.padGet.toNat + 8) = e0.run (e.padGet.toNat + 8) :=
     run_succ_congr hnext (e.padGet.toNat + 7)
-  refine ⟨_, ?_, rfl⟩
+  refine ⟨{ e0 with st := .fin 8 }, ?_, rfl⟩
   rw [hrun, h]
   simp [e0, padGet]
 
@@ -490,10 +528,14 @@ theorem run_trailer {e : Enc} {n : Nat} (hl : LookLike e.st n) (hr : e.rest = []
 exactly the bytes of `frame p`, and leave the encoder in `End(8)`. -/
 theorem run_frame (p : List UInt8) :
     ∃ e', (Enc.new p).run (frame p).length = (e', (frame p).map .byte) ∧ e'.st = .fin 8 := by
-  have h0 : (Enc.new p).run 8 = ({ Enc.new p with st := .init 8 }, Spec.START.map .byte) := by
+  have h0 : (Enc.new p).run 8 =
+      ({ st := .init 8, crc := startCrc, padding := 0, rest := p }, Spec.START.map .byte) := by
     simp [run, next, Enc.new, Spec.START]
   obtain ⟨e1, h1, hl1, hr1, hc1, hp1⟩ :=
-    run_payload p { Enc.new p with st := .init 8 } 0 (Or.inr ⟨rfl, Or.inl rfl⟩) rfl
+    run_payload p { st := .init 8, crc := startCrc, padding := 0, rest := p } 0
+      (Or.inr ⟨rfl, Or.inl rfl⟩) rfl
+  have hs : stuffFrom 0 p = stuff p := rfl
+  rw [hs] at h1 hc1
   obtain ⟨e2, h2, hst⟩ := run_trailer hl1 hr1
   have hrun := run_add_of h0 (run_add_of h1 h2)
   -- the pad count
@@ -505,9 +547,9 @@ theorem run_frame (p : List UInt8) :
   -- the CRC
   have hcrc : crcFinal (crcUpdate (crcUpdate e1.crc (List.replicate e1.padGet.toNat 0))
       [0x1b, 0x1b, 0x1b, 0x1b, 0x1a, e1.padGet]) = crc16 (framePrefix p) := by
-    rw [hc1, hpadNat, hpad, framePrefix_eq_parts, crc16]
-    show crcFinal (crcUpdate (crcUpdate (crcUpdate (crcUpdate crcInit Sml.START) _) _) _) = _
-    rw [START_eq_spec, ← crcUpdate_append, ← crcUpdate_append, ← crcUpdate_append]
+    have hc1' : e1.crc = crcUpdate startCrc (stuff p) := by simpa only using hc1
+    rw [hc1', hpadNat, hpad, framePrefix_eq_parts, crc16, ← crcUpdate_crcInit_START_append,
+      ← crcUpdate_append, ← crcUpdate_append, List.append_assoc (Spec.START ++ stuff p)]
   rw [hcrc, hpadNat, hpad] at hrun
   refine ⟨e2, ?_, hst⟩
   rw [frame_eq_parts]
